@@ -367,10 +367,23 @@ def App.commitMS (a : App) : Except Err App :=
 
 /-! ## BaseApp -/
 
-def cpKey : Bytes := "consensus_params".toUTF8.toList
-def cpVal : Bytes := "CP".toUTF8.toList
-def hdrKey : Bytes := "last_header".toUTF8.toList
-def hdrVal (height : Nat) : Bytes := ("H" ++ toString height).toUTF8.toList
+/-- "consensus_params" (explicit bytes: string literals do not reduce in the kernel). -/
+def cpKey : Bytes := [99, 111, 110, 115, 101, 110, 115, 117, 115, 95, 112, 97, 114, 97, 109, 115]
+/-- the stored consensus params, symbolically: "CP". -/
+def cpVal : Bytes := [67, 80]
+/-- "last_header" -/
+def hdrKey : Bytes := [108, 97, 115, 116, 95, 104, 101, 97, 100, 101, 114]
+
+/-- decimal digits of `n`, most significant first (fuel-structural, kernel friendly). -/
+def decDigits (fuel n : Nat) (acc : Bytes) : Bytes :=
+  match fuel with
+  | 0 => acc
+  | fuel + 1 =>
+    let acc := (48 + (n % 10)).toUInt8 :: acc
+    if n / 10 = 0 then acc else decDigits fuel (n / 10) acc
+
+/-- the stored block header, symbolically: "H<height>". -/
+def hdrVal (height : Nat) : Bytes := 72 :: decDigits (height + 1) height []
 
 /-- `cache.Store.Write` onto a tree store. -/
 def Tree.flush (t : Tree) (d : KVO) : Tree :=
